@@ -107,7 +107,9 @@ def lattice(d, L, seed, quick):
     if d == 3:
         tl = [ix for ix in tl if sum(ix) % 3 == seed % 3]
     for ix in tl:
-        for zx in itertools.product(Z0, repeat=d):
+        for iz, zx in enumerate(itertools.product(Z0, repeat=d)):
+            if quick and d == 3 and (iz + sum(ix)) % 2 != seed % 2:
+                continue  # quick, d=3: half of the momentum sign patterns (alternating with the start point)
             z = np.array(zx) * (1.0 + 0.25 * np.arange(d))
             pts.append((np.array([T0[i] for i in ix]), L @ z))
     return pts
@@ -491,8 +493,8 @@ def run(ck):
         for mass in R.MASSES:
             for b in R.BOUNDS:
                 if quick:
-                    # quick: every (d, mass, bounds) with 5 (d=3: 2) of the 96 combinations of the other four axes, rotated by seed
-                    for j in range(5 if d < 3 else 2):
+                    # quick: every (d, mass, bounds) with 4 (d=3: 2) of the 96 combinations of the other four axes, rotated by seed
+                    for j in range(4 if d < 3 else 2):
                         k += 1
                         idx = (seed * 37 + k * 13 + j * 29) % 96
                         pot, er, T = R.POTENTIALS[idx % 4], EPS_RELS[(idx // 4) % 3], TS[(idx // 12) % 2]
@@ -540,7 +542,7 @@ def run(ck):
     ck.rule = (
         "potential {diag, corr, quartic, sharp(log cosh)} x d {1,2,3} x step (relative to the stiffest frequency) {.01,.1,.3} x n {1,2,5,20} x T {1,2.5} x "
         "mass {default, scalar .3, vector, matrix-diagonal, matrix-full} x bounds {none, wide, tight}; thorough = full product, quick = every (d, mass, bounds) "
-        "with 5 (d=3: 2) seed-rotated combinations of the remaining axes; per configuration the lattice (t0 in {-.4,.1,.55}^d) x (r0 = L z, z in {-1.2,.7}^d scaled per axis) "
+        "with 4 (d=3: 2) seed-rotated combinations of the remaining axes (and, for d=3, half of the momentum lattice); per configuration the lattice (t0 in {-.4,.1,.55}^d) x (r0 = L z, z in {-1.2,.7}^d scaled per axis) "
         "(d=3: the third of the t0 lattice with index sum = seed mod 3). A configuration is distinct by (potential, d, wall class free/bounded/bounded-folded, mass class, T, n, step); "
         "wall-free vs folded is decided with the unbounded twin of the chain at eps, eps/2, eps/4. accept: scripted generator, u on both sides (1e-6) of every threshold; "
         "fd: gradient lattice {-.4,0,1e-6,.55}^d (free) / {lower,-.4,0,.55,upper}^d (bounded)."
